@@ -74,6 +74,10 @@ var vTemplates = [...]struct{ pre, post string }{
 	60: {"a <b>;tag=x", ";y=z\r\nX"},
 	61: {"<b>;", "=v;lr\r\nX"},
 	62: {"\"x\" <", ">;tag=t , <c>\r\nX"},
+	63: {"INVITE sip:a SIP/2.0\r\nl:0\r\n\r\n", ""},      // bytes after a complete message
+	64: {"a=1;", ";c=3?x"},                               // URI parameter list, window in the middle
+	65: {"a=1&", "&c=3\r\nX"},                             // URI header list
+	66: {"lr;", "=x;ttl=1?y"},
 }
 
 // vTpl builds template t with a window of w symbolic bytes.
